@@ -3,6 +3,7 @@ package verifmc
 import (
 	"bytes"
 	"fmt"
+	"os"
 	"runtime"
 	"strconv"
 	"sync"
@@ -72,6 +73,10 @@ type Sched struct {
 	// points that matter are elsewhere (e.g. durable commits) and lock
 	// acquisition order by itself cannot change the outcome.
 	LazyLocks bool
+	// free: the execution is not controlled (race pass): Go collects the
+	// bodies, RunAll starts them as plain goroutines and waits.
+	free    bool
+	freeFns []func()
 }
 
 // harness threads of all active executions, by goroutine id. Several
@@ -180,6 +185,10 @@ func (s *Sched) park(t *thread, kind string, op *lockOp) {
 
 // Go registers a harness thread. Must be called before RunAll.
 func (s *Sched) Go(name string, fn func()) {
+	if s.free {
+		s.freeFns = append(s.freeFns, fn)
+		return
+	}
 	t := &thread{s: s, id: len(s.threads), name: name, wake: make(chan bool)}
 	s.threads = append(s.threads, t)
 	go func() {
@@ -243,6 +252,24 @@ func (s *Sched) acquire(t *thread) {
 // by the prefix (then default choice 0). It returns the per-thread panic
 // values (nil entries for threads that finished normally).
 func (s *Sched) RunAll() []any {
+	if s.free {
+		res := make([]any, len(s.freeFns))
+		var wg sync.WaitGroup
+		for i, fn := range s.freeFns {
+			wg.Add(1)
+			go func() {
+				defer wg.Done()
+				defer func() {
+					if r := recover(); r != nil {
+						res[i] = fmt.Sprintf("%v @ %s", r, PanicSite())
+					}
+				}()
+				fn()
+			}()
+		}
+		wg.Wait()
+		return res
+	}
 	activeCount.Add(1)
 	defer activeCount.Add(-1)
 	// all threads are parked on their wake channel (start point); they are
@@ -333,6 +360,7 @@ type Explorer struct {
 	// Timeout for one thread step (default 30s).
 	StepTimeout time.Duration
 	Name        string
+	FreeIters   int // executions per scenario in the free-running race pass (default 6)
 
 	Executions int64
 	Outcomes   map[string]int64
@@ -403,6 +431,21 @@ func (e *Explorer) runOne(prefix []int) *Sched {
 // Run performs the DFS. Returns false if the wall-clock cap stopped it.
 func (e *Explorer) Run() bool {
 	e.Complete = true
+	if FreeRunning() {
+		// race pass: the same body on uncontrolled goroutines, a fixed number
+		// of times; oracle reports are ignored here (the schedule exploration
+		// is what decides the property), only the race detector speaks.
+		n := e.FreeIters
+		if n == 0 {
+			n = 6
+		}
+		for i := 0; i < n; i++ {
+			e.Body(&Sched{free: true}, func(k, d string) {})
+			e.Executions++
+			FreeExecutions.Add(1)
+		}
+		return true
+	}
 	e.explore(nil)
 	e.C.AddStates(e.Executions)
 	return e.Complete
@@ -446,4 +489,17 @@ func (e *Explorer) explore(prefix []int) {
 			pre++
 		}
 	}
+}
+
+// FreeRunning reports whether this process is the separate free-running pass
+// (go test -race, VERIF_FREE=1): explorations then run their bodies on plain
+// goroutines instead of the controlled scheduler.
+func FreeRunning() bool { return os.Getenv("VERIF_FREE") != "" }
+
+// FreeExecutions counts the bodies executed by the free-running pass.
+var FreeExecutions atomic.Int64
+
+// RacePassDone prints the line the wrapper reads.
+func RacePassDone(id string) {
+	fmt.Printf("VERIF-RACE property=%s iterations=%d\n", id, FreeExecutions.Load())
 }
